@@ -461,10 +461,36 @@ class Gen:
                 b2, _, _ = self.block(1, ints, seqs, 0, in_loop)
                 out += ['else:'] + ind(b2)
             return out, ints, seqs, False
-        if x < 0.6:
+        if x < 0.5:
             self.feats.add('assign')
             v = self.fresh(ints)
             return ['%s = %s' % (v, self.int_expr(d, ints, seqs))], ints | {v}, seqs - {v}, False
+        if x < 0.60:
+            y = r.random()
+            e = self.int_expr(d, ints, seqs)
+            if y < 0.25:
+                self.feats.add('store')
+                return ['%s = %s' % (r.choice(['O.p', 'O[%s]' % self.atom(ints), 'O.o1.qq']), e)], ints, seqs, False
+            if y < 0.4:
+                self.feats.add('assign-unpack')
+                v1, v2 = self.fresh(ints), self.fresh(ints)
+                if v1 == v2:
+                    v2 += 'b'
+                return ['%s, %s = %s, %s' % (v1, v2, e, self.operand(d - 1, ints, seqs, False))], ints | {v1, v2}, seqs, False
+            if y < 0.6 and ints:
+                self.feats.add('augassign')
+                return ['%s %s= %s' % (r.choice(sorted(ints)), r.choice(['+', '-', '*']), e)], ints, seqs, False
+            if y < 0.7:
+                self.feats.add('raise')
+                return ['raise E(%s)' % e], ints, seqs, True
+            if y < 0.8:
+                self.feats.add('delete')
+                return ['del O[%s]' % self.atom(ints)], ints, seqs, False
+            if y < 0.9 and ints:
+                self.feats.add('assert-trivial')
+                return ['assert %s, %s' % (r.choice(sorted(ints)), self.atom(ints))], ints, seqs, False
+            self.feats.add('nested-def')
+            return ['def h%d(u):' % r.randint(1, 3), '    return tr(%d, u)' % self.newtag()], ints, seqs, False
         if x < 0.68:
             self.feats.add('assign-seq')
             v = 's%d' % r.randint(1, 3)
